@@ -70,6 +70,7 @@ def configs(max_idle):
         "s_order": st.permutations(["ka", "conn", "msg"]),     # order of the ServerContext setter calls
         "ka_change": st.one_of(st.none(), st.tuples(st.floats(0.1, 0.9), ka).map(list)),   # client keep-alive changed mid-idle
         "cut_replay": st.booleans(),    # after the cut, stale copies of the peer's last datagrams keep arriving
+        "bystander": st.booleans(),     # a second, idle client that must stay up whatever happens to the first
     })
 
 
@@ -179,11 +180,18 @@ def idle_body(ctx, c):
         if not (c_ka + 2 * frame + 2 * tick + delay + 0.05 < s_ct and s_ka + 2 * tick + 2 * frame + delay + 0.05 < 5.0):
             ctx.label("precondition-not-met")
             return None
+        by = None
+        if c.get("bystander"):
+            by = w.add_client(laddr=("10.0.4.4", 4444))
+            by.connect()
+            st_.run(1.0, until=lambda: by.connected() and by.laddr in w.ctxt.connections)
         ch = w.add_client()
         apply_setters(ch, c, "before", errors)
         ch.connect()
         apply_setters(ch, c, "after", errors)
         ok = st_.run(3.0, until=lambda: ch.connected() and ch.laddr in w.ctxt.connections)
+        if by is not None and not (by.connected() and by.laddr in w.ctxt.connections):
+            ctx.violation("honest-connect-failed", "bystander client %s" % (by.status(),))
         if errors:
             ctx.violation("setter-raises", errors[0])
         if not ok:
@@ -239,14 +247,15 @@ def idle_body(ctx, c):
             cut = c["cut"]
             s_last_rx = sconn.last_recv_time
             c_last_rx = ch.conn.last_recv_time
-            w.net.policy = lambda em: [] if (cut == "both" or (cut == "c2s") == em.to_server) else [delay]
+            first_addr = ch.laddr
+            w.net.policy = lambda em: [delay] if first_addr not in (em.src, em.dst) else ([] if (cut == "both" or (cut == "c2s") == em.to_server) else [delay])
             n_cut = len(w.net.log)
             # in flight datagrams still arrive: track the last receive instants while the link drains
             t_cut = w.clock.t
             rec_c = ch.send(W.payload_for(1, 20), retry=RetryMode.NONE.value, callback=True)
             rec_s = w.server_send(ch.laddr, W.payload_for(2, 20), retry=RetryMode.NONE, callback=True)
             disc = []
-            w.on_event.append(lambda e: disc.append(e["t"]) if e["ev"] == "disconnect" else None)
+            w.on_event.append(lambda e: disc.append(e["t"]) if e["ev"] == "disconnect" and e["addr"] == first_addr else None)
             horizon = max(s_ct, 5.0) + 2.0 + max(s_mt, c_mt)
             t_end = w.clock.t + horizon
             # the last genuine arrivals, from the harness's own record of the wire (not from the endpoints' bookkeeping):
@@ -309,6 +318,16 @@ def idle_body(ctx, c):
                     lo, hi = t_emit + mt, t_emit + mt + 2 * spacing + 2 * tick + EPS
                     if not (lo - EPS <= falses[0] <= hi):
                         ctx.violation("message-timeout-instant", "%s cut=%s: %s callback(False) at %.4f, expected within [%.4f, %.4f] (configured message timeout %.2f)" % (what, cut, side, falses[0], lo, hi, mt))
+        if by is not None:
+            # the bystander's link was never touched: it stays up and keeps hearing from the server
+            if not by.connected() or by.laddr not in w.ctxt.connections:
+                ctx.violation("bystander-dropped", "%s cut=%s: the idle bystander (default settings, link intact) ended %s, server has it: %s" % (
+                    what, c["cut"], by.status(), by.laddr in w.ctxt.connections))
+            last_to_by = max([em.t for em in w.net.log if em.dst == by.laddr] or [0])
+            if w.clock.t - last_to_by > s_ka + 2 * tick + 0.05:
+                ctx.violation("bystander-dropped", "%s cut=%s: the server has sent nothing to the idle bystander for %.2f s" % (what, c["cut"], w.clock.t - last_to_by))
+            if any(e["ev"] == "disconnect" and e["addr"] == by.laddr for e in w.events):
+                ctx.violation("bystander-dropped", "%s: disconnect event for the bystander" % what)
         if not w.server_alive():
             ctx.violation("server-loop-died", "server thread died: %r" % (w.thread_exc,))
         post = any(m in ("after", "both") for m in (c["c_ka_mode"], c["c_msg_mode"], c["c_conn_mode"]))
@@ -326,6 +345,7 @@ unanswered = st.fixed_dictionaries({
     "kind": st.sampled_from(["no-reply", "no-reply", "half-open-server"]),
     "s_temp": st.one_of(st.none(), st.sampled_from([0.5, 1.0, 3.0])),
     "late": st.booleans(),
+    "again": st.one_of(st.none(), st.sampled_from([0.4, 1.5, 3.0])),     # after the first attempt ended: set this timeout, connect() again
 })
 
 
@@ -389,6 +409,25 @@ def unanswered_body(ctx, c):
         if c["callback"]:
             if [v for _, v in ch.connect_cb] != [False]:
                 ctx.violation("connect-callback", "%s: connect callback invocations %r (expected exactly one False)" % (what, ch.connect_cb))
+        if c.get("again") is not None and c["kind"] == "no-reply" and ends:
+            # the same UdpClient tries again with another timeout: the value set between the attempts governs the second one
+            T2 = c["again"]
+            try:
+                ch.udp.setConnectionTimeout(T2)
+            except Exception as e:
+                ctx.violation("setter-raises", "setConnectionTimeout(%r) between two attempts raised %s: %s" % (T2, type(e).__name__, e))
+            n_log = len(ch.status_log)
+            ch.connect(callback=c["callback"])
+            t_hello2 = w.clock.t
+            t_end2 = w.clock.t + T2 + 1.0
+            while w.clock.t < t_end2:
+                w.step(frame)
+            ends2 = [t for t, s_ in ch.status_log[n_log:] if s_ == "DISCONNECTED"]
+            if not ends2:
+                ctx.violation("unanswered-connect-never-ends", "%s, second attempt with timeout %.1f: status %s" % (what, T2, ch.status()))
+            elif not (t_hello2 + T2 < ends2[0] <= t_hello2 + T2 + 2 * frame + EPS):
+                ctx.violation("connect-timeout-instant", "%s, second attempt: DISCONNECTED %.4f s after the hello, expected within (%.2f, %.4f] (timeout set between the attempts)" % (
+                    what, ends2[0] - t_hello2, T2, T2 + 2 * frame))
         if c["kind"] == "half-open-server":
             if t_first_seen is None:
                 ctx.violation("half-open-not-tracked", "server never created a temp connection")
